@@ -14,4 +14,46 @@ MC2Script == [u1 |-> <<[x |-> "a", urgent |-> FALSE, block |-> TRUE], [x |-> "b"
               u3 |-> <<[x |-> "e", urgent |-> TRUE, block |-> TRUE]>>]
 MC2NPops == [p1 |-> 2, p2 |-> 2]
 MC2CanCancel == {"p1", "p2"}
+
+(* Small configurations for the single-line-slip variants (see RpcQueue.tla, Variant): each is run twice by
+   bin/lib/props/c15.py, with Variant = "none" (every property must hold) and with the variant (the named
+   property must fail).  Naming: <cfg>Pushers, <cfg>Poppers, <cfg>Script, <cfg>NPops, <cfg>CanCancel. *)
+It(x, u, b) == [x |-> x, urgent |-> u, block |-> b]
+None == {}
+NoScript == [p \in {} |-> <<>>]
+NoPops == [j \in {} |-> 0]
+
+\* one popper on an empty queue (close / cancel while it is between its checks and its wait)
+SP1Pushers == {}            SP1Poppers == {"p1"}        SP1Script == NoScript
+SP1NPops == [p1 |-> 1]      SP1CanCancel == {}
+\* two poppers on an empty queue, one cancellable
+SP2Pushers == {}            SP2Poppers == {"p1", "p2"}  SP2Script == NoScript
+SP2NPops == [p1 |-> 1, p2 |-> 1]   SP2CanCancel == {"p2"}
+\* one pusher: fills capacity 1, then blocks
+SU1Pushers == {"u1"}        SU1Poppers == {}            SU1Script == [u1 |-> <<It("a", FALSE, FALSE), It("b", FALSE, TRUE)>>]
+SU1NPops == NoPops          SU1CanCancel == {}
+\* three blocking pushers on capacity 1 (two of them wait)
+SU3Pushers == {"u1", "u2", "u3"}   SU3Poppers == {}
+SU3Script == [u1 |-> <<It("a", FALSE, TRUE)>>, u2 |-> <<It("b", FALSE, TRUE)>>, u3 |-> <<It("c", TRUE, TRUE)>>]
+SU3NPops == NoPops          SU3CanCancel == {}
+\* seeded b1: capacity 2 filled, two blocking pushers wait, one popper pops twice
+SB1Pushers == {"u1", "u2", "u3"}   SB1Poppers == {"p1"}
+SB1Script == [u1 |-> <<It("a", FALSE, FALSE), It("b", FALSE, FALSE)>>, u2 |-> <<It("c", FALSE, TRUE)>>, u3 |-> <<It("d", TRUE, TRUE)>>]
+SB1NPops == [p1 |-> 2]      SB1CanCancel == {}
+\* its mirror image: two poppers wait on an empty queue of capacity 2, one pusher pushes twice
+SPPPushers == {"u1"}        SPPPoppers == {"p1", "p2"}
+SPPScript == [u1 |-> <<It("a", FALSE, FALSE), It("b", TRUE, FALSE)>>]
+SPPNPops == [p1 |-> 1, p2 |-> 1]   SPPCanCancel == {}
+\* seeded a2: capacity 1, a blocked pusher is woken by a pop and a third pusher takes the slot first
+SA2Pushers == {"u1", "u2", "u3"}   SA2Poppers == {"p1"}
+SA2Script == [u1 |-> <<It("a", FALSE, TRUE)>>, u2 |-> <<It("b", FALSE, TRUE)>>, u3 |-> <<It("c", FALSE, FALSE)>>]
+SA2NPops == [p1 |-> 1]      SA2CanCancel == {}
+\* one pusher and one popper, capacity 1 (the Signal that is missing or goes to the wrong condition)
+SUPPushers == {"u1"}        SUPPoppers == {"p1"}
+SUPScript == [u1 |-> <<It("a", FALSE, TRUE), It("b", TRUE, TRUE)>>]
+SUPNPops == [p1 |-> 2]      SUPCanCancel == {}
+\* two classes, capacity 2 (selection order, Len)
+SCLPushers == {"u1"}        SCLPoppers == {"p1"}
+SCLScript == [u1 |-> <<It("a", FALSE, FALSE), It("b", TRUE, FALSE), It("c", TRUE, FALSE)>>]
+SCLNPops == [p1 |-> 2]      SCLCanCancel == {}
 =============================================================================
